@@ -3,7 +3,7 @@ import ast
 import re
 
 from ..index import AnalysisError, attr_chain, norm, own_nodes
-from ..query import calls_in, call_name, is_value_yield, lines
+from ..query import calls_in, call_name, is_value_yield, lines, assigns
 from ..flow import reaching_defs
 from .common import (TLSCONN, TLSREC, RECLAYER, nodes_with_call, consumes_of, dead_edge_labels,
                      must_pass, senderror_desc, rule_consume)
@@ -761,3 +761,60 @@ def _guarded_in_expr(expr, node, chain):
 
 
 RULES.insert(5, ("C08.NULLFIELD", "quick", rule_nullfield))
+
+
+# ----------------------------------------------------------------- OPTIONAL
+def _is_next_none(v):
+    return isinstance(v, ast.Call) and isinstance(v.func, ast.Name) and v.func.id == "next" and \
+        len(v.args) == 2 and isinstance(v.args[1], ast.Constant) and v.args[1].value is None
+
+
+def rule_optional(ctx):
+    """OPTIONAL: a local bound to `next(<search over peer data>, None)` is None when the peer's data
+    has no match; every attribute/subscript use of it is reachable only through a not-None edge."""
+    R = "C08.OPTIONAL"
+    from ..query import truthy_edges
+    sites = 0
+    for fi in ctx.index.all_functions():
+        if fi.module.name not in ("tlsconnection", "tlsrecordlayer", "keyexchange", "handshakehelpers"):
+            continue
+        binds = [n for n in own_nodes(fi.node) if isinstance(n, ast.Assign) and len(n.targets) == 1
+                 and isinstance(n.targets[0], ast.Name) and _is_next_none(n.value)]
+        if not binds:
+            continue
+        g = ctx.an.cfg(fi)
+        for b in binds:
+            v = b.targets[0].id
+            d = [n for n in g.nodes if n.ast is b]
+            if not d:
+                raise AnalysisError("C08.OPTIONAL: CFG node of `%s` not found in %s" % (norm(b), fi.qname))
+            sites += 1
+            others = [n for n in g.nodes if assigns(n, v) and n is not d[0]]
+            seen = g.reach(g.normal_succ(d[0]), blocked=others, cut=truthy_edges(g, v))
+            uses = []
+            for u in g.nodes:
+                if u.id not in seen or u.expr is None:
+                    continue
+                for x in ast.walk(u.expr):
+                    if isinstance(x, (ast.Attribute, ast.Subscript)) and isinstance(x.value, ast.Name) \
+                            and x.value.id == v and not _guarded_in_expr(u.expr, x.value, v):
+                        uses.append(u)
+            ctx.check(R, not uses, fi.qname, "`%s = next(.., None)` used only after a not-None test" % v,
+                      "`%s` is None when nothing in the peer's message matches, and `%s` dereferences it without a "
+                      "preceding test: the peer can make the handshake die with AttributeError/TypeError instead of "
+                      "an alert" % (v, norm(uses[0].ast)[:70] if uses else ""),
+                      fi.loc(uses[0].ast) if uses else fi.loc(b), path=lines(g.path(seen, uses[0].id)) if uses else None,
+                      what="%s %s" % (fi.short, v))
+    ctx.require(sites >= 4, "C08.OPTIONAL: %d `next(.., None)` bindings found, floor 4" % sites)
+
+
+RULES.insert(6, ("C08.OPTIONAL", "quick", rule_optional))
+
+
+def rule_range(ctx):
+    """RANGE: numeric values taken from the peer's extensions are range-checked (alert) before use."""
+    from .c01 import rsl_range
+    rsl_range(ctx, "C08.RANGE")
+
+
+RULES.insert(7, ("C08.RANGE", "quick", rule_range))
